@@ -29,7 +29,12 @@ def check(ctx):
     calls = an.summary(CALLS)
     gs = model.function("stubs", "generate_stub")
     reach = an.reachable_fns([gs])
+    # the generator's own helpers, wherever they live now (a function moved to another module and imported back is followed)
     stub_fns = [f for f in reach if f.module.short == "stubs"]
+    for nm_ in ("get_annotation_typestr", "get_method_annotation", "get_arg_annotation", "get_retval_annotation"):
+        f_ = model.function("stubs", nm_)
+        if f_ in reach and f_ not in stub_fns:
+            stub_fns.append(f_)
     ctx.need(len(stub_fns) >= 4, "stub generator functions not found")
 
     # ---------------------------------------------------------------- C20.1
